@@ -2,7 +2,7 @@
    constants below (they mirror the unchanged tree and do not depend on the generated table, so they keep checking
    after the repository is repaired); the generated table of a run is classified against them by run.py. *)
 From Coq Require Import String List Bool NArith.
-From OG Require Import C19.Model C19.Proofs.
+From OG Require Import C19.Model C19.Privileges C19.Proofs.
 Import ListNotations.
 Open Scope string_scope.
 Open Scope N_scope.
@@ -101,3 +101,21 @@ Theorem C19_dataplane_refuted :
   guard_ok [] (mk_hguard "POST" "/repo/{repository}/logstreams/{logStream}/records" ["write"]) = true.
 Proof. vm_compute. repeat split. discriminate. Qed.
 Print Assumptions C19_dataplane_refuted.
+
+(* C19-cardinality-no-source-unprivileged (open): with today's RequiredPrivileges methods a cardinality statement without
+   a FROM clause (key cardinalities; EXACT series / measurement cardinality) asks for nothing: a user without any
+   privilege is authorized to read the measurement names and counts of any database. *)
+Theorem C19_cardinality_refuted :
+  exists ty exact, In ty cardinality_types /\
+    card_rule model_privs ty exact "db1" [] = Some [] /\
+    authorize_query nobody "db1" [[]] = true /\ authorize_database nobody ReadPriv "db1" = false.
+Proof.
+  exists "ShowTagKeyCardinalityStatement", true. split; [right; right; left; reflexivity|]. vm_compute. repeat split.
+Qed.
+Print Assumptions C19_cardinality_refuted.
+
+Theorem C19_cardinality_refuted_each :
+  forallb (fun te => match card_rule model_privs (fst te) (snd te) "db1" [] with Some [] => true | _ => false end)
+    [("ShowTagKeyCardinalityStatement", true); ("ShowTagKeyCardinalityStatement", false); ("ShowFieldKeyCardinalityStatement", false);
+     ("ShowTagValuesCardinalityStatement", false); ("ShowSeriesCardinalityStatement", true); ("ShowMeasurementCardinalityStatement", true)] = true.
+Proof. vm_compute. reflexivity. Qed.
